@@ -455,13 +455,15 @@ static Type *declspec(Token **rest, Token *tok, VarAttr *attr) {
 
       // Of several alignment specifiers the strictest one applies,
       // and _Alignas(0) has no effect (C11 6.7.5p6).
-      int align;
+      int64_t align;
       if (is_typename(tok))
         align = typename(&tok, tok)->align;
       else
         align = const_expr(&tok, tok);
       if (align < 0 || (align & (align - 1)))
         error_tok(tok, "alignment is not a power of two");
+      if (align > (1 << 28))
+        error_tok(tok, "alignment is too large");
       if (align > attr->align)
         attr->align = align;
       tok = skip(tok, ")");
@@ -1072,21 +1074,24 @@ static void string_initializer(Token **rest, Token *tok, Initializer *init) {
 //
 // The above initializer sets x.c to 5.
 static void array_designator(Token **rest, Token *tok, Type *ty, int *begin, int *end) {
-  *begin = const_expr(&tok, tok->next);
-  if (*begin < 0)
+  // The values are checked before they are narrowed to int.
+  int64_t lo = const_expr(&tok, tok->next);
+  if (lo < 0)
     error_tok(tok, "array designator index is negative");
-  if (*begin >= ty->array_len)
+  if (lo >= ty->array_len)
     error_tok(tok, "array designator index exceeds array bounds");
 
+  int64_t hi = lo;
   if (equal(tok, "...")) {
-    *end = const_expr(&tok, tok->next);
-    if (*end >= ty->array_len)
+    hi = const_expr(&tok, tok->next);
+    if (hi >= ty->array_len)
       error_tok(tok, "array designator index exceeds array bounds");
-    if (*end < *begin)
-      error_tok(tok, "array designator range [%d, %d] is empty", *begin, *end);
-  } else {
-    *end = *begin;
+    if (hi < lo)
+      error_tok(tok, "array designator range [%ld, %ld] is empty", lo, hi);
   }
+
+  *begin = lo;
+  *end = hi;
 
   *rest = skip(tok, "]");
 }
@@ -3076,11 +3081,12 @@ static void struct_members(Token **rest, Token *tok, Type *ty) {
       if (consume(&tok, tok, ":")) {
         Token *colon = tok;
         mem->is_bitfield = true;
-        mem->bit_width = const_expr(&tok, tok);
+        int64_t width = const_expr(&tok, tok);
         if (!is_integer(mem->ty))
           error_tok(colon, "bit-field has a non-integer type");
-        if (mem->bit_width < 0 || mem->bit_width > mem->ty->size * 8)
+        if (width < 0 || width > mem->ty->size * 8)
           error_tok(colon, "bit-field width is out of range");
+        mem->bit_width = width;
       }
 
       cur = cur->next = mem;
